@@ -235,6 +235,56 @@ Proof.
   intros k. apply csf_bins_range. assumption.
 Qed.
 
+Lemma Zlength_nn {A} (l : list A) : (0 <= Zlength l)%Z.
+Proof. rewrite Zlength_correct. lia. Qed.
+
+(* a segment that fits in the DFT is embedded verbatim: zeros, the segment, zeros
+   (np.roll(np.pad(filt, (0, D - len)), start) of the repo's own test) *)
+Lemma Csum_pick_seg (filt : list C) (a b : Z) :
+  Csum (map2 (fun x k => if (k =? b)%Z then x else RtoC 0) filt
+             (map (fun i => (a + i)%Z) (zrange (Zlength filt)))) =
+  if (a <=? b)%Z && (b <? a + Zlength filt)%Z then nth (Z.to_nat (b - a)) filt (RtoC 0) else RtoC 0.
+Proof.
+  revert a. induction filt as [|x filt IH]; intros a.
+  - simpl. destruct ((a <=? b)%Z && (b <? a + Zlength (@nil C))%Z); [|reflexivity].
+    destruct (Z.to_nat (b - a)); reflexivity.
+  - rewrite Zlength_cons. unfold zrange. rewrite Z2Nat.inj_succ by apply Zlength_nn.
+    rewrite <- cons_seq, <- seq_shift. simpl map. rewrite !map_map.
+    unfold map2. simpl combine. simpl map. simpl Csum.
+    specialize (IH (a + 1)%Z). unfold map2, zrange in IH.
+    rewrite (map_ext (fun x0 : nat => (a + Z.of_nat (S x0))%Z) (fun x0 => (a + 1 + Z.of_nat x0)%Z)) by (intros; lia).
+    rewrite map_map in IH. rewrite IH.
+    pose proof (Zlength_nn filt) as Hn.
+    change (Z.of_nat 0) with 0%Z. rewrite Z.add_0_r.
+    destruct (Z.eqb_spec a b) as [-> | Nab].
+    + destruct (Z.leb_spec (b + 1) b); [lia|]. simpl andb.
+      destruct (Z.leb_spec b b); [|lia]. destruct (Z.ltb_spec b (b + Z.succ (Zlength filt))); [|lia].
+      simpl andb. replace (b - b)%Z with 0%Z by lia. simpl. ring.
+    + destruct (Z.leb_spec (a + 1) b), (Z.leb_spec a b); try lia; simpl andb.
+      * destruct (Z.ltb_spec b (a + 1 + Zlength filt)), (Z.ltb_spec b (a + Z.succ (Zlength filt))); try lia.
+        -- replace (Z.to_nat (b - a)) with (S (Z.to_nat (b - (a + 1)))) by lia. simpl. ring.
+        -- ring.
+      * cbv iota. ring.
+Qed.
+
+Lemma embed_fitting_l d start filt b :
+  (0 <= start)%Z -> (start + Zlength filt <= d)%Z -> (0 <= b < d)%Z ->
+  nth (Z.to_nat b) (embed d start filt) (RtoC 0) =
+  if (start <=? b)%Z && (b <? start + Zlength filt)%Z
+  then nth (Z.to_nat (b - start)) filt (RtoC 0) else RtoC 0.
+Proof.
+  intros Hs Hf Hb. unfold embed.
+  set (F := fun b0 : Z => _).
+  rewrite (nth_indep _ (RtoC 0) (F 0%Z)) by (rewrite map_length, zrange_length; lia).
+  rewrite map_nth, zrange_nth by lia. rewrite Z2Nat.id by lia. unfold F.
+  rewrite <- Csum_pick_seg. f_equal.
+  unfold csf_bins, np_arange2, csf_bin_lo, csf_bin_hi, csf_bin_mod.
+  replace (start + Zlength filt - start)%Z with (Zlength filt) by lia.
+  rewrite map_map. f_equal. apply map_ext_in. intros i Hi.
+  unfold zrange in Hi. apply in_map_iff in Hi as [n [<- Hn]]. apply in_seq in Hn.
+  apply Z.mod_small. pose proof (Zlength_nn filt). lia.
+Qed.
+
 (* The property's clause: the inverse DFT of the output is the inverse DFT of the
    input circularly shifted by [s] samples. *)
 Lemma circshift_shift_theorem_l filt (s : Z) start d n :
